@@ -332,6 +332,42 @@ func (frpoly_@C@) MLFold(table []*big.Int, r *big.Int) []*big.Int {
 	m.Fold(e_@C@(r))
 	return bv_@C@(m)
 }
+func (frpoly_@C@) MLFoldParallel(table []*big.Int, r *big.Int, chunks [][2]int, concurrent bool) ([]*big.Int, int) {
+	m := pol_@C@.MultiLin(ev_@C@(table))
+	task := m.FoldParallel(e_@C@(r))
+	lenAfterCall := len(m)
+	if concurrent {
+		var wg sync.WaitGroup
+		for _, c := range chunks {
+			c := c
+			wg.Add(1)
+			go func() { defer wg.Done(); task(c[0], c[1]) }()
+		}
+		wg.Wait()
+	} else {
+		for _, c := range chunks {
+			task(c[0], c[1])
+		}
+	}
+	return bv_@C@(m), lenAfterCall
+}
+func (frpoly_@C@) MLFoldParallelPool(table []*big.Int, r *big.Int, minBlock int) []*big.Int {
+	m := pol_@C@.MultiLin(ev_@C@(table))
+	task := m.FoldParallel(e_@C@(r))
+	workerPool().Submit(len(m), task, minBlock).Wait()
+	return bv_@C@(m)
+}
+func (frpoly_@C@) PoolClone(v []*big.Int) (clone []*big.Int, makeLen int) {
+	src := ev_@C@(v)
+	scratch := pool_@C@.Make(len(v)) // a second live slice of the same class
+	makeLen = len(scratch)
+	copy(scratch, garbage_@C@(len(scratch)))
+	c := pool_@C@.Clone(src)
+	copy(src, garbage_@C@(len(src)))
+	clone = bv_@C@(c)
+	pool_@C@.Dump(scratch, c)
+	return clone, makeLen
+}
 func (frpoly_@C@) MLEvaluate(table, coords []*big.Int, usePool bool) (*big.Int, []*big.Int) {
 	m := pol_@C@.MultiLin(ev_@C@(table))
 	var pl *pol_@C@.Pool
@@ -378,7 +414,7 @@ def ident(c):
     return c.replace("-", "")
 
 out = ["// Code generated by /verif/harness/gen_iop.py; DO NOT EDIT.", "package inst", "", "import (",
-       '\t"fmt"', '\t"io"', '\t"math/big"', ""]
+       '\t"fmt"', '\t"io"', '\t"math/big"', '\t"sync"', "", '\t"github.com/consensys/gnark-crypto/utils"', ""]
 for c in CURVES + FR_ONLY:
     a = ident(c)
     base = "github.com/consensys/gnark-crypto/ecc/%s/fr" % c
@@ -388,6 +424,17 @@ for c in CURVES + FR_ONLY:
         out.append('\tiop_%s_pkg "%s/iop"' % (a, base))
     out.append('\tpol_%s "%s/polynomial"' % (a, base))
 out.append(")\n")
+out.append("""var (
+	wpOnce sync.Once
+	wp     *utils.WorkerPool
+)
+
+// workerPool returns the process-wide utils.WorkerPool (NumCPU+2 workers; never stopped).
+func workerPool() *utils.WorkerPool {
+	wpOnce.Do(func() { wp = utils.NewWorkerPool() })
+	return wp
+}
+""")
 out.append("var allIops = []Iop{" + ", ".join("iop_%s{}" % ident(c) for c in CURVES) + "}")
 out.append("var allFrPolys = []FrPoly{" + ", ".join("frpoly_%s{}" % ident(c) for c in CURVES + FR_ONLY) + "}")
 for c in CURVES + FR_ONLY:
